@@ -238,7 +238,7 @@ def _walk_no_defs(node: ast.AST):
 
 
 class Interp:
-    MAX_DEPTH = 14
+    MAX_DEPTH = 60
 
     def __init__(
         self,
@@ -428,11 +428,11 @@ class Interp:
         if self.opaque(f):
             term = T("call", (f"{f.module.name}.{f.qualname}", tuple((k, _term(v)) for k, v in bound.items())))
             self.log("call", node, callee=f"{f.module.name}.{f.qualname}", bound=bound, func=f, result=term)
-            return TV(term)
+            return TV(term, kind="opaque")
         if isinstance(f.node, ast.Lambda):
             env = Env(f.env, bound)
             return self.eval(f.node.body, env, f.module)
-        if self.depth >= self.MAX_DEPTH or self.call_stack.count(f.qualname) > 2:
+        if self.depth >= self.MAX_DEPTH or self.call_stack.count(f.qualname) > 40:
             raise Unsupported(f"inlining bound reached at {f.qualname}")
         self.log("enter", node, func=f, bound=bound)
         env = Env(f.env, bound)
@@ -680,6 +680,21 @@ class Interp:
             return None
         if isinstance(st, ast.For):
             it = self.eval(st.iter, env, mi)
+            if hasattr(it, "first") and hasattr(it, "after"):  # live linked-list iteration (fx node list)
+                cur = it.first()
+                steps = 0
+                while cur is not None:
+                    steps += 1
+                    if steps > 5000:
+                        raise Unsupported("live iteration does not terminate")
+                    self.assign(st.target, cur, env, mi, st)
+                    kind, val = self.exec_stmts(list(st.body), env, mi, lambda e: ("next", None))
+                    if kind == "return":
+                        return ("raise", None) if val is BOTTOM else ("return", val)
+                    if kind == "break":
+                        break
+                    cur = it.after(cur)
+                return None
             seq = self.concrete_iter(it)
             if seq is None:
                 raise Unsupported(f"loop over non-concrete iterable at {mi.rel}:{st.lineno}")
@@ -697,6 +712,21 @@ class Interp:
                     kind, val = self.exec_stmts(list(st.orelse), env, mi, lambda e: ("next", None))
                     if kind == "return":
                         return ("return", val)
+            return None
+        if isinstance(st, ast.While):
+            for _ in range(20000):
+                c = self.truth(self.eval(st.test, env, mi), st)
+                if c is False:
+                    break
+                if c is not True:
+                    raise Unsupported(f"while loop with undecidable condition at {mi.rel}:{st.lineno}")
+                kind, val = self.exec_stmts(list(st.body), env, mi, lambda e: ("next", None))
+                if kind == "return":
+                    return ("raise", None) if val is BOTTOM else ("return", val)
+                if kind == "break":
+                    break
+            else:
+                raise Unsupported("while loop does not terminate within the bound")
             return None
         if isinstance(st, ast.With):
             self._with_stack.append([])
@@ -729,6 +759,25 @@ class Interp:
         if isinstance(st, ast.Delete):
             for t in st.targets:
                 self.log("delete", st, target=ast.unparse(t))
+                if isinstance(t, ast.Name):
+                    env.vars.pop(t.id, None)
+                elif isinstance(t, ast.Subscript):
+                    obj = self.eval(t.value, env, mi)
+                    idx = self.eval(t.slice, env, mi)
+                    if isinstance(obj, dict) and _hashable(idx):
+                        if idx in obj:
+                            del obj[idx]
+                        else:
+                            self.log("raise", st, exc="KeyError")
+                            return ("raise", "KeyError")
+                    elif isinstance(obj, list) and isinstance(idx, int):
+                        del obj[idx]
+                    else:
+                        raise Unsupported("del of a non-concrete container item")
+                elif isinstance(t, ast.Attribute):
+                    obj = self.eval(t.value, env, mi)
+                    if isinstance(obj, Obj):
+                        obj.attrs.pop(t.attr, None)
             return None
         if isinstance(st, (ast.Global, ast.Nonlocal)):
             return None
@@ -737,6 +786,10 @@ class Interp:
     def concrete_iter(self, it: Any) -> Optional[List[Any]]:
         if isinstance(it, (tuple, list)):
             return list(it)
+        if isinstance(it, (set, frozenset)):
+            return sorted(it, key=_set_order)
+        if hasattr(it, "snapshot") and hasattr(it, "after"):
+            return it.snapshot()
         if isinstance(it, range):
             return list(it)
         if isinstance(it, dict):
@@ -836,7 +889,7 @@ class Interp:
             return v
         if v is None:
             return False
-        if isinstance(v, (int, str, tuple, list, dict, Shape, range)):
+        if isinstance(v, (int, str, tuple, list, dict, Shape, range, set, frozenset)):
             return bool(v)
         if isinstance(v, sp.Basic):
             v = num(v)
@@ -882,7 +935,12 @@ class Interp:
             m = getattr(self, "e_" + type(node).__name__, None)
             if m is None:
                 raise Unsupported(f"expression {type(node).__name__} at {mi.rel}:{getattr(node, 'lineno', '?')}")
-            return m(node, env, mi)
+            try:
+                return m(node, env, mi)
+            except Unsupported as ex:
+                if " @ " not in str(ex):
+                    raise Unsupported(f"{ex} @ {mi.rel}:{getattr(node, 'lineno', '?')}") from None
+                raise
         finally:
             self.cur_mod = saved
 
@@ -913,7 +971,7 @@ class Interp:
         return list(self._elts(n.elts, env, mi))
 
     def e_Set(self, n: ast.Set, env: Env, mi: ModInfo) -> Any:
-        return tuple(self._elts(n.elts, env, mi))
+        return make_set(self._elts(n.elts, env, mi))
 
     def _elts(self, elts: Sequence[ast.AST], env: Env, mi: ModInfo) -> List[Any]:
         out: List[Any] = []
@@ -1139,7 +1197,7 @@ class Interp:
             if isinstance(a, ExtV) and isinstance(b, ExtV):
                 same = a.name == b.name
             elif isinstance(a, ModV) and isinstance(b, ModV):
-                same = a.info is b.info
+                same = a.info is b.info or a.info.rel == b.info.rel
             else:
                 same = a is b or (type(a) == type(b) and isinstance(a, (FuncV, ClassV)) and a.node is b.node)
             return same if name == "eq" else (not same)
@@ -1217,6 +1275,8 @@ class Interp:
             return _Builtin(f"list.{attr}", lambda it, a, k, nd, l=v, at=attr: _list_method(it, l, at, a, k))
         if isinstance(v, str):
             return _Builtin(f"str.{attr}", lambda it, a, k, nd, s=v, at=attr: _str_method(s, at, a, k))
+        if isinstance(v, set):
+            return _Builtin(f"set.{attr}", lambda it, a, k, nd, st=v, at=attr: _set_method(it, st, at, a, k))
         if isinstance(v, tuple):
             if attr in ("count", "index"):
                 return _Builtin(f"tuple.{attr}", lambda it, a, k, nd, s=v, at=attr: getattr(s, at)(*a))
@@ -1425,6 +1485,65 @@ class _Builtin:
 class _DictItems:
     def __init__(self, items: List[Tuple[Any, Any]]):
         self.items = items
+
+
+_order_counter = [0]
+_order_ids: Dict[int, int] = {}
+
+
+def _set_order(x: Any) -> Any:
+    """Deterministic iteration order for abstract sets (creation order of objects)."""
+    if isinstance(x, Obj):
+        return (1, x.ident, "")
+    if isinstance(x, str):
+        return (0, 0, x)
+    return (2, _order_ids.setdefault(id(x), len(_order_ids)), "")
+
+
+def make_set(elts: Sequence[Any]) -> Any:
+    try:
+        return set(elts)
+    except TypeError:
+        return tuple(elts)
+
+
+def _set_method(it: "Interp", st: set, attr: str, a: List[Any], k: Dict[str, Any]) -> Any:
+    def other(x: Any) -> set:
+        seq = it.concrete_iter(x)
+        if seq is None:
+            raise Unsupported("set operation with a non-concrete operand")
+        return set(seq)
+
+    if attr == "add":
+        st.add(a[0])
+        return None
+    if attr == "update":
+        for x in a:
+            st.update(other(x))
+        return None
+    if attr in ("discard", "remove"):
+        st.discard(a[0])
+        return None
+    if attr == "copy":
+        return set(st)
+    if attr == "intersection":
+        r = set(st)
+        for x in a:
+            r &= other(x)
+        return r
+    if attr == "union":
+        r = set(st)
+        for x in a:
+            r |= other(x)
+        return r
+    if attr == "difference":
+        r = set(st)
+        for x in a:
+            r -= other(x)
+        return r
+    if attr == "issubset":
+        return st <= other(a[0])
+    raise Unsupported(f"set.{attr}")
 
 
 def _dict_method(it: Interp, d: Dict[Any, Any], attr: str, a: List[Any], k: Dict[str, Any]) -> Any:
@@ -1672,6 +1791,8 @@ def struct_eq(a: Any, b: Any) -> Any:
         return False
     if isinstance(a, dict) and isinstance(b, dict):
         return value_eq(a, b)
+    if isinstance(a, (set, frozenset)) or isinstance(b, (set, frozenset)):
+        return isinstance(a, (set, frozenset)) and isinstance(b, (set, frozenset)) and a == b
     if isinstance(a, (TV, Obj, Unknown)) or isinstance(b, (TV, Obj, Unknown)):
         if _term(a) == _term(b):
             return True
@@ -1741,6 +1862,8 @@ def _term(v: Any) -> Any:
         return tuple(_term(x) for x in v)
     if isinstance(v, dict):
         return T("dict", tuple((k if _hashable(k) else repr(k), _term(x)) for k, x in v.items()))
+    if isinstance(v, (set, frozenset)):
+        return T("set", tuple(_term(x) for x in sorted(v, key=_set_order)))
     if isinstance(v, Unknown):
         return T("unknown", (v.why,))
     if isinstance(v, FuncV):
